@@ -261,6 +261,8 @@ impl<'a> Namespace<'a> {
         if let Some(super_types) = self.supertypes_of_cache.get(symbol) {
             super_types
         } else {
+            #[cfg(libhaystack_verif)]
+            verif_step("sup.miss", symbol);
             let val = match self.get(symbol) {
                 Some(def) => {
                     if let Some(is_a_list) = def.get_list("is") {
@@ -286,7 +288,11 @@ impl<'a> Namespace<'a> {
             };
 
             if !self.supertypes_of_cache.contains_key(symbol) {
+                #[cfg(libhaystack_verif)]
+                verif_step("sup.absent", symbol);
                 self.supertypes_of_cache.insert(symbol.clone(), val);
+                #[cfg(libhaystack_verif)]
+                verif_step("sup.inserted", symbol);
             }
             self.supertypes_of_cache.get(symbol).expect("Cached value")
         }
@@ -398,6 +404,8 @@ impl<'a> Namespace<'a> {
         if let Some(inheritance) = self.inheritance_of_cache.get(symbol) {
             inheritance
         } else {
+            #[cfg(libhaystack_verif)]
+            verif_step("inh.miss", symbol);
             let val = if let Some(def) = self.get(symbol) {
                 let mut supertypes = HashSet::<&Dict>::new();
                 supertypes.insert(def);
@@ -407,7 +415,11 @@ impl<'a> Namespace<'a> {
                 Vec::default()
             };
             if !self.inheritance_of_cache.contains_key(symbol) {
+                #[cfg(libhaystack_verif)]
+                verif_step("inh.absent", symbol);
                 self.inheritance_of_cache.insert(symbol.clone(), val);
+                #[cfg(libhaystack_verif)]
+                verif_step("inh.inserted", symbol);
             }
             self.inheritance_of_cache.get(symbol).expect("Cached value")
         }
@@ -915,5 +927,63 @@ impl<'a> Namespace<'a> {
             }
         }
         false
+    }
+}
+
+// ---------------------------------------------------------------------------------------------
+// Verification hooks.  Compiled only with `RUSTFLAGS="--cfg libhaystack_verif"`; without that cfg
+// nothing below exists and the functions above contain no extra statement.
+// ---------------------------------------------------------------------------------------------
+
+/// (verification hook) The cached entries of a namespace cache as `(symbol, def names)` pairs.
+#[cfg(libhaystack_verif)]
+pub type VerifCacheSnapshot = Vec<(String, Vec<String>)>;
+
+/// (verification hook) Callback invoked at the step boundaries of the get-or-compute-insert
+/// protocol of `supertypes_of` / `inheritance`: `<cache>.miss` (the first `get` found nothing),
+/// `<cache>.absent` (`contains_key` was false, about to insert), `<cache>.inserted`.
+/// No cache guard is held when it is called.
+#[cfg(libhaystack_verif)]
+pub type VerifStepHook = Box<dyn Fn(&'static str, &str) + Send + Sync>;
+
+#[cfg(libhaystack_verif)]
+lazy_static! {
+    static ref VERIF_STEP_HOOK: std::sync::RwLock<Option<VerifStepHook>> = std::sync::RwLock::new(None);
+}
+
+/// (verification hook) Install or remove the step callback.
+#[cfg(libhaystack_verif)]
+pub fn verif_set_step_hook(hook: Option<VerifStepHook>) {
+    *VERIF_STEP_HOOK.write().expect("verif hook lock") = hook;
+}
+
+#[cfg(libhaystack_verif)]
+fn verif_step(point: &'static str, symbol: &Symbol) {
+    if let Ok(guard) = VERIF_STEP_HOOK.read() {
+        if let Some(hook) = guard.as_ref() {
+            hook(point, &symbol.value);
+        }
+    }
+}
+
+#[cfg(libhaystack_verif)]
+impl<'a> Namespace<'a> {
+    /// (verification hook) Snapshot of `supertypes_of_cache` and `inheritance_of_cache`.
+    pub fn verif_cache_snapshot(&self) -> (VerifCacheSnapshot, VerifCacheSnapshot) {
+        let dump = |cache: &DashMap<Symbol, Vec<&'a Dict>>| -> VerifCacheSnapshot {
+            cache
+                .iter()
+                .map(|entry| {
+                    (
+                        entry.key().value.clone(),
+                        entry.value().iter().map(|def| def.def_name().clone()).collect(),
+                    )
+                })
+                .collect()
+        };
+        (
+            dump(&self.supertypes_of_cache),
+            dump(&self.inheritance_of_cache),
+        )
     }
 }
